@@ -134,7 +134,9 @@ Verdict_encode2(e) ==
         \* buffer held before
         sameValue(m) == \/ m = <<ST_Other>>
                         \/ Len(exp) = 1 /\ m = <<0>>
-                        \/ Len(exp) > 1 /\ complete(m) /\ Len(m) > 1 /\ SameItem(Body(m), Body(exp))
+                        \* (the crate's own decoder refuses non-minimal heads: bytes it could not read back
+                        \* are not an encoding of the value)
+                        \/ Len(exp) > 1 /\ complete(m) /\ Len(m) > 1 /\ SameItem(Body(m), Body(exp)) /\ IsCanonical(Body(m))
         c15 == sameValue(o.buf) /\ sameValue(o.buf_alt) /\ sameValue(big)
         bind == o.buf = buf
     IN  [bind |-> bind, unspec |-> FALSE,
